@@ -87,11 +87,23 @@ class JobRunAdapter:
                 w += "printf \"F1 content\\n\" > f1.txt; "
             if "f2.bin" in c["writes"]:
                 w += "printf \"\\000\\377\\001binary\" > f2.bin; "
-            script = (f'echo "{j}|$(cat note.txt)|$(wc -c < blob.bin | tr -d " ")|$MBV_A|$MBV_B|$(pwd)" >> {log}; '
+            script = (f'echo "{j}|$([ -e note.txt ] && cat note.txt || echo NOFILE)|$([ -e blob.bin ] && wc -c < blob.bin | tr -d " " || echo 0)'
+                      f'|$MBV_A|$MBV_B|$(pwd)" >> {log}; '
                       f'echo out-{j}; echo err-{j} >&2; {w}' + ("kill -9 $$" if c["rc"] == 137 else f'exit {c["rc"]}'))
             commands.append(("sh -c '" + script + "'", f"c{j}" if c["named"] else None))
-        inp = JobInput(jid="job17", commands=commands, files={"note.txt": "hello text", "blob.bin": b"\x00\x01\x02\xff" * 3},
-                       return_files=("f1.txt", "f2.bin"), envars={"MBV_A": "job"})
+        # the optional fields of the JobInput: omitted (None) vs explicitly empty vs given
+        form = act.get("form", "full")
+        kw = {"files": {"note.txt": "hello text", "blob.bin": b"\x00\x01\x02\xff" * 3}, "return_files": ("f1.txt", "f2.bin"),
+              "envars": {"MBV_A": "job"}}
+        field = {"nofiles": "files", "noenv": "envars", "noret": "return_files"}.get(form.split("_")[0])
+        if field:
+            if form.endswith("_none"):
+                del kw[field]
+            else:
+                kw[field] = {} if field != "return_files" else ()
+        inp = JobInput(jid="job17", commands=commands, **kw)
+        want_in = ["hello text", "12"] if "files" in kw and kw["files"] else ["NOFILE", "0"]
+        want_env = ["job" if kw.get("envars") else "parent", "parent"]
         ifn = self.dir / "job17.inp"
         inp.dump(ifn)
         env = dict(os.environ, MBV_A="parent", MBV_B="parent")
@@ -103,8 +115,8 @@ class JobRunAdapter:
         res = {"exit": 0 if p.returncode == 0 else 1}
         lines = log.read_text().splitlines() if log.exists() else []
         res["executed"] = [int(l.split("|")[0]) for l in lines]
-        res["inputs_ok"] = all(l.split("|")[1:3] == ["hello text", "12"] for l in lines)
-        res["env_ok"] = all(l.split("|")[3:5] == ["job", "parent"] for l in lines)
+        res["inputs_ok"] = all(l.split("|")[1:3] == want_in for l in lines)
+        res["env_ok"] = all(l.split("|")[3:5] == want_env for l in lines)
         dirs = {l.split("|")[5] for l in lines}
         private = all(Path(d_).parent == scratch for d_ in dirs) and len(dirs) <= 1
         try:
